@@ -64,6 +64,13 @@ pub fn rename_operation(
 
     // Build the list of styles to use based on exclude, include, and only options
     let styles = build_styles_list(exclude_styles, include_styles, only_styles);
+    // `None` means that the exclusions left no style at all; downstream `None` would mean
+    // "the default styles", i.e. exactly the styles the user excluded
+    if styles.is_none() {
+        return Err(anyhow::anyhow!(
+            "invalid style selection: every naming style is excluded, nothing to search for"
+        ));
+    }
 
     // Generate the plan
     let options = PlanOptions {
